@@ -9,6 +9,7 @@ package main
 import (
 	"flag"
 	"fmt"
+	"time"
 
 	"github.com/alttpo/snes/emulator"
 )
@@ -128,6 +129,7 @@ func runUntilCmd(args []string) int {
 		fetched := map[uint32]int{}
 		var cyc uint64
 		refPanicked := false
+		refStuck := false
 		func() {
 			defer func() {
 				if e := recover(); e != nil {
@@ -135,6 +137,10 @@ func runUntilCmd(args []string) int {
 				}
 			}()
 			for cyc < maxc {
+				if uint64(refSteps) > maxc+8 {
+					refStuck = true // a Step reported no cycles: the loop cannot make progress
+					break
+				}
 				refLog++
 				if rs.GetPC() == target {
 					break
@@ -164,7 +170,9 @@ func runUntilCmd(args []string) int {
 		}
 		var ret bool
 		panicked := false
-		func() {
+		done := make(chan struct{})
+		go func() {
+			defer close(done)
 			defer func() {
 				if e := recover(); e != nil {
 					panicked = true
@@ -172,7 +180,25 @@ func runUntilCmd(args []string) int {
 			}()
 			ret = sys.RunUntil(target, maxc)
 		}()
+		hung := false
+		select {
+		case <-done:
+		case <-time.After(3 * time.Second):
+			hung = true // the goroutine is abandoned; the budget is a few hundred cycles at most
+		}
 		bad := ""
+		if hung || refStuck {
+			bad = fmt.Sprintf("RunUntil does not return within its budget (hung=%v, a Step reported no cycles=%v)", hung, refStuck)
+			fails++
+			if fails <= 5 {
+				fmt.Printf("FAIL C12 rununtil case=%d pseed=%d target=%06x maxc=%d logger=%v: %s\n", c, pseed, target, maxc, withLogger, bad)
+			}
+			if hung {
+				// do not touch sys any more (still running); counters of this case are not reliable
+				continue
+			}
+			continue
+		}
 		if refPanicked || panicked {
 			// the program ran into an address the System does not map (the bus fails loudly there, C13): outside this property
 			if refPanicked != panicked && !withLogger {
